@@ -143,8 +143,16 @@ func mergeRegion(fr *frame, ifInstr *ssa.If, cond *symv) (ok bool) {
 	B := fr.block
 	pending := map[*ssa.BasicBlock][]inEdge{}
 	var order []*ssa.BasicBlock
+	evaluated := map[*ssa.BasicBlock]bool{B: true}
+	backEdge := false
 	addEdge := func(from, to *ssa.BasicBlock, g string) {
 		if g == "false" {
+			return
+		}
+		if evaluated[to] {
+			// an edge back into a block already passed: the region is a loop, not a diamond —
+			// it must be explored by forking, never merged
+			backEdge = true
 			return
 		}
 		if _, seen := pending[to]; !seen {
@@ -154,7 +162,6 @@ func mergeRegion(fr *frame, ifInstr *ssa.If, cond *symv) (ok bool) {
 	}
 	addEdge(B, B.Succs[0], cond.term)
 	addEdge(B, B.Succs[1], not1(cond.term))
-	evaluated := map[*ssa.BasicBlock]bool{B: true}
 	savedSteps := ex.steps
 	ex.spec++
 	defer func() { ex.spec-- }()
@@ -168,6 +175,9 @@ func mergeRegion(fr *frame, ifInstr *ssa.If, cond *symv) (ok bool) {
 		}
 	}()
 	for n := 0; ; n++ {
+		if backEdge {
+			return false
+		}
 		// all pending edges into one block?
 		var targets []*ssa.BasicBlock
 		for _, b := range order {
